@@ -111,8 +111,7 @@ Example C17_nonvacuous :
   edge_frame C17_example =
     ([("source", [Val 7; Val 7]); ("target", [Val 7; Val 7]);
       ("w_0", [Val 1; NaN]); ("w_1", [Val 2; NaN]); ("s", [Val 8; Val 9])]%string%Z, ["cov"%string]) /\
-  geff_to_csv (mkFs None (Some [])) C17_example false =
-    (mkFs (Some (fst (node_frame C17_example))) (Some []), Err FileExistsError).
+  geff_to_csv (mkFs None (Some [])) C17_example false = (mkFs None (Some []), Err FileExistsError).
 Proof.
   split; [|vm_compute; repeat split].
   split; repeat constructor; try (eexists; reflexivity);
